@@ -1,0 +1,101 @@
+//go:build verif
+// +build verif
+
+// Package verifhook provides observation and delay points for the verification harness in
+// /verif. This is the instrumented variant (build tag "verif").
+package verifhook
+
+import (
+	"sync"
+	"sync/atomic"
+)
+
+// Event is one Emit call, stamped from a single atomic counter.
+type Event struct {
+	Seq  int64
+	Kind string
+	KV   []interface{}
+}
+
+var (
+	mu        sync.RWMutex
+	actions   = map[string]func(){}
+	counts    = map[string]*int64{}
+	recording int32
+	seq       int64
+	evMu      sync.Mutex
+	events    []Event
+)
+
+func counter(name string) *int64 {
+	mu.RLock()
+	c := counts[name]
+	mu.RUnlock()
+	if c != nil {
+		return c
+	}
+	mu.Lock()
+	defer mu.Unlock()
+	if c = counts[name]; c == nil {
+		c = new(int64)
+		counts[name] = c
+	}
+	return c
+}
+
+// At counts the visit and runs the action attached to the point, if any.
+func At(name string) {
+	atomic.AddInt64(counter(name), 1)
+	mu.RLock()
+	f := actions[name]
+	mu.RUnlock()
+	if f != nil {
+		f()
+	}
+}
+
+// Emit counts the event and, while recording is on, appends it to the event log.
+func Emit(kind string, kv ...interface{}) {
+	atomic.AddInt64(counter(kind), 1)
+	if atomic.LoadInt32(&recording) == 0 {
+		return
+	}
+	e := Event{Seq: atomic.AddInt64(&seq, 1), Kind: kind, KV: kv}
+	evMu.Lock()
+	events = append(events, e)
+	evMu.Unlock()
+}
+
+// Set attaches an action to a point (nil removes it).
+func Set(name string, f func()) {
+	mu.Lock()
+	if f == nil {
+		delete(actions, name)
+	} else {
+		actions[name] = f
+	}
+	mu.Unlock()
+}
+
+// Count returns how often a point was visited / an event was emitted.
+func Count(name string) int64 {
+	return atomic.LoadInt64(counter(name))
+}
+
+// Record switches the event log on or off.
+func Record(on bool) {
+	if on {
+		atomic.StoreInt32(&recording, 1)
+	} else {
+		atomic.StoreInt32(&recording, 0)
+	}
+}
+
+// Events returns a copy of the event log and clears it.
+func Events() []Event {
+	evMu.Lock()
+	defer evMu.Unlock()
+	out := events
+	events = nil
+	return out
+}
